@@ -167,25 +167,6 @@ theorem mergeFlags_empty (g : Flags) : mergeFlags {} g = g := by
 
 /-! ### quantities -/
 
-theorem smallNumerals_suffix : ∀ (l₂ l₁ : List Nat), l₁ <:+ l₂ → smallNumerals l₂ = true → smallNumerals l₁ = true := by
-  intro l₂
-  induction l₂ with
-  | nil => intro l₁ h _; simp at h; subst h; rfl
-  | cons c r ih =>
-    intro l₁ h hs
-    rw [List.suffix_cons_iff] at h
-    rcases h with h | h
-    · subst h; exact hs
-    · apply ih _ h
-      simp [smallNumerals] at hs
-      exact hs.2
-
-theorem smallNumerals_head (l : List Nat) (h : smallNumerals l = true) :
-    digitsValue (l.takeWhile isDigit) ≤ i32Max := by
-  cases l with
-  | nil => simp [digitsValue, i32Max]
-  | cons c r => simp [smallNumerals] at h; exact h.1
-
 /-- value of a digit run continued from `num` -/
 def dv (num : Nat) (ds : List Nat) : Nat := ds.foldl (fun a c => 10 * a + (c - 48)) num
 
@@ -199,107 +180,176 @@ theorem dv_ge : ∀ (ds : List Nat) (num : Nat), num ≤ dv num ds := by
     simp [dv] at *
     omega
 
+/-- the digit loop: the value of the run if it fits an `isize`, `IntTooBig` (at some digit) otherwise -/
 theorem parseDigits_eq : ∀ (rest : List Nat) (num i : Nat),
-    dv num (rest.takeWhile isDigit) ≤ i32Max →
-    parseDigits num i rest =
-      .ok (dv num (rest.takeWhile isDigit), i + (rest.takeWhile isDigit).length, rest.dropWhile isDigit) := by
+    (dv num (rest.takeWhile isDigit) ≤ isizeMax →
+      parseDigits num i rest =
+        .ok (dv num (rest.takeWhile isDigit), i + (rest.takeWhile isDigit).length, rest.dropWhile isDigit)) ∧
+    (dv num (rest.takeWhile isDigit) > isizeMax → num ≤ isizeMax →
+      ∃ j, parseDigits num i rest = .err .intTooBig j) := by
   intro rest
   induction rest with
-  | nil => intro num i _; simp [parseDigits, dv]
+  | nil =>
+    intro num i
+    refine ⟨by intro _; simp [parseDigits, dv], ?_⟩
+    intro h hn; simp [dv] at h; omega
   | cons c cs ih =>
-    intro num i h
+    intro num i
     unfold parseDigits
     cases hd : isDigit c with
-    | false => simp [hd, dv]
+    | false =>
+      refine ⟨by intro _; simp [dv, hd], ?_⟩
+      intro h hn; simp [dv, hd] at h; omega
     | true =>
-      simp only [List.takeWhile_cons, hd, if_true] at h
-      have h' : dv (10 * num + (c - 48)) (cs.takeWhile isDigit) ≤ i32Max := by
-        simpa [dv] using h
-      have hge := dv_ge (cs.takeWhile isDigit) (10 * num + (c - 48))
-      have hle : ¬ (num * 10 + (c - 48) > i32Max) := by omega
       have e : num * 10 + (c - 48) = 10 * num + (c - 48) := by omega
-      simp only [if_true, e]
-      rw [ih _ _ h']
       have e2 : dv num (c :: cs.takeWhile isDigit) = dv (10 * num + (c - 48)) (cs.takeWhile isDigit) := rfl
-      simp only [List.takeWhile_cons, List.dropWhile_cons, hd, if_true, List.length_cons, e2]
-      have e3 : i + 1 + (cs.takeWhile isDigit).length = i + ((cs.takeWhile isDigit).length + 1) := by omega
-      rw [e3]
-      have hle2 : ¬ (10 * num + (c - 48) > i32Max) := by omega
-      simp [hle2]
+      have hge := dv_ge (cs.takeWhile isDigit) (10 * num + (c - 48))
+      obtain ⟨ih1, ih2⟩ := ih (10 * num + (c - 48)) (i + 1)
+      simp only [List.takeWhile_cons, List.dropWhile_cons, hd, if_true, List.length_cons, e2, e]
+      constructor
+      · intro h
+        have hle : ¬ (10 * num + (c - 48) > isizeMax) := by omega
+        rw [if_neg hle, ih1 h]
+        have e3 : i + 1 + (cs.takeWhile isDigit).length = i + ((cs.takeWhile isDigit).length + 1) := by omega
+        rw [e3]
+      · intro h _
+        by_cases hov : 10 * num + (c - 48) > isizeMax
+        · exact ⟨i, by rw [if_pos hov]⟩
+        · rw [if_neg hov]
+          exact ih2 h (by omega)
 
-/-- the quantity the text starts with (shared shape of model and reference under `smallNumerals`) -/
-theorem parseQuantity_eq (i : Nat) (rest : List Nat) (limit : Nat) (hl : i32Max ≤ limit)
-    (hs : smallNumerals rest = true) :
-    ∃ r, pyQuantity limit rest = .ok r ∧ parseQuantity i rest = .ok (decorate i rest r) ∧ r.2 <:+ rest := by
+/-- `pyQuantity` spelled out on a text that does not start with `*` -/
+theorem pyQuantity_cons (limit c : Nat) (cs : List Nat) (h42 : c ≠ 42) :
+    pyQuantity limit (c :: cs) =
+      (let ds := (c :: cs).takeWhile isDigit
+       if ds.isEmpty then .ok (none, c :: cs)
+       else if digitsValue ds > limit then .err .tooBig
+       else .ok (some (.amount (digitsValue ds)), (c :: cs).dropWhile isDigit)) := by
+  unfold pyQuantity
+  split
+  · simp_all
+  · rfl
+
+/-- the quantity the text starts with: `*`, nothing, or the value `v` of its maximal digit run —
+    accepted iff `v ≤ isize::MAX` -/
+theorem parseQuantity_cases (i : Nat) (rest : List Nat) :
+    (∃ cs, rest = 42 :: cs ∧ parseQuantity i rest = .ok (some .star, i + 1, cs)) ∨
+    (rest.head? ≠ some 42 ∧ (rest.takeWhile isDigit).isEmpty = true ∧ parseQuantity i rest = .ok (none, i, rest)) ∨
+    (rest.head? ≠ some 42 ∧ (rest.takeWhile isDigit).isEmpty = false ∧
+      (if digitsValue (rest.takeWhile isDigit) ≤ isizeMax then
+        parseQuantity i rest = .ok (some (.amount (digitsValue (rest.takeWhile isDigit))),
+          i + (rest.length - (rest.dropWhile isDigit).length), rest.dropWhile isDigit)
+       else ∃ j, parseQuantity i rest = .err .intTooBig j)) := by
   cases rest with
-  | nil => exact ⟨(none, []), by simp [pyQuantity], by simp [parseQuantity, decorate], List.suffix_refl _⟩
+  | nil => right; left; exact ⟨by simp, rfl, rfl⟩
   | cons c cs =>
     by_cases h42 : c = 42
-    · subst h42
-      refine ⟨(some .star, cs), by simp [pyQuantity], ?_, List.suffix_cons _ _⟩
-      simp [parseQuantity, decorate]
-    · have hpy : pyQuantity limit (c :: cs) =
-          (let ds := (c :: cs).takeWhile isDigit
-           if ds.isEmpty then .ok (none, c :: cs)
-           else if digitsValue ds > limit then .err .tooBig
-           else .ok (some (.amount (digitsValue ds)), (c :: cs).dropWhile isDigit)) := by
-        unfold pyQuantity
-        split
-        · simp_all
-        · rfl
+    · subst h42; left; exact ⟨cs, rfl, by simp [parseQuantity]⟩
+    · right
       cases hd : isDigit c with
-      | false =>
-        refine ⟨(none, c :: cs), ?_, ?_, List.suffix_refl _⟩
-        · rw [hpy]; simp [hd]
-        · simp [parseQuantity, h42, hd, decorate]
+      | false => left; exact ⟨by simp [h42], by simp [hd], by simp [parseQuantity, h42, hd]⟩
       | true =>
-        have hv := smallNumerals_head _ hs
-        simp only [List.takeWhile_cons, hd, if_true] at hv
-        have hv' : dv (c - 48) (cs.takeWhile isDigit) ≤ i32Max := by
-          simpa [digitsValue, dv] using hv
-        refine ⟨(some (.amount (dv (c - 48) (cs.takeWhile isDigit))), cs.dropWhile isDigit), ?_, ?_, ?_⟩
-        · rw [hpy]
-          have e : digitsValue (c :: cs.takeWhile isDigit) = dv (c - 48) (cs.takeWhile isDigit) := by
-            simp [digitsValue, dv]
-          have : ¬ (dv (c - 48) (cs.takeWhile isDigit) > limit) := by omega
-          simp [hd, this, e]
-        · simp only [parseQuantity, h42, if_false, hd, if_true]
-          rw [parseDigits_eq _ _ _ hv']
-          simp [decorate]
-          have h2 : (cs.takeWhile isDigit).length + (cs.dropWhile isDigit).length = cs.length := by
-            rw [← List.length_append, List.takeWhile_append_dropWhile]
-          omega
-        · exact List.IsSuffix.trans (List.dropWhile_suffix _) (List.suffix_cons _ _)
+        right
+        refine ⟨by simp [h42], by simp [hd], ?_⟩
+        have e : digitsValue ((c :: cs).takeWhile isDigit) = dv (c - 48) (cs.takeWhile isDigit) := by
+          simp [digitsValue, dv, hd]
+        have hc : c - 48 ≤ isizeMax := by
+          simp only [isDigit, Bool.and_eq_true, decide_eq_true_eq] at hd; unfold isizeMax; omega
+        obtain ⟨h1, h2⟩ := parseDigits_eq cs (c - 48) (i + 1)
+        rw [e]
+        have hl : (cs.takeWhile isDigit).length + (cs.dropWhile isDigit).length = cs.length := by
+          rw [← List.length_append, List.takeWhile_append_dropWhile]
+        split
+        · rename_i hle
+          simp only [parseQuantity, h42, if_false, hd, if_true, h1 hle, List.dropWhile_cons, List.length_cons]
+          congr 3; omega
+        · rename_i hgt
+          obtain ⟨j, hj⟩ := h2 (by omega) hc
+          exact ⟨j, by simp only [parseQuantity, h42, if_false, hd, if_true, hj]⟩
 
-theorem parsePrecision_eq (i : Nat) (rest : List Nat) (hs : smallNumerals rest = true) :
-    ∃ (p : Option Precision) (r' : List Nat), pyPrecision rest = .ok (toPyPrec p, r') ∧
-      parsePrecision i rest = .ok (p, i + (rest.length - r'.length), r') ∧ r' <:+ rest := by
+/-- the width (a `Py_ssize_t` for Python, an `isize` here): same quantity, same rejection -/
+theorem parseQuantity_eq (i : Nat) (rest : List Nat) :
+    match pyQuantity isizeMax rest with
+    | .ok r => parseQuantity i rest = .ok (decorate i rest r) ∧ r.2 <:+ rest
+    | .err e => e = .tooBig ∧ ∃ j, parseQuantity i rest = .err .intTooBig j := by
+  rcases parseQuantity_cases i rest with ⟨cs, rfl, h⟩ | ⟨h42, he, h⟩ | ⟨h42, he, h⟩
+  · simp only [pyQuantity]
+    exact ⟨by rw [h]; simp [decorate], List.suffix_cons _ _⟩
+  · cases rest with
+    | nil => simp only [pyQuantity]; exact ⟨by rw [h]; simp [decorate], List.suffix_refl _⟩
+    | cons c cs =>
+      rw [pyQuantity_cons _ _ _ (by simpa using h42)]
+      simp only [he, if_true]
+      exact ⟨by rw [h]; simp [decorate], List.suffix_refl _⟩
+  · cases rest with
+    | nil => simp at he
+    | cons c cs =>
+      rw [pyQuantity_cons _ _ _ (by simpa using h42)]
+      simp only [he, Bool.false_eq_true, if_false]
+      by_cases hv : digitsValue ((c :: cs).takeWhile isDigit) ≤ isizeMax
+      · rw [if_pos hv] at h
+        rw [if_neg (by omega)]
+        exact ⟨by rw [h]; simp [decorate], List.dropWhile_suffix _⟩
+      · rw [if_neg hv] at h
+        rw [if_pos (by omega)]
+        exact ⟨rfl, h⟩
+
+/-- the precision (a C `int` for Python; here an `isize` quantity checked against `i32::MAX`) -/
+theorem parsePrecision_eq (i : Nat) (rest : List Nat) :
+    match pyPrecision rest with
+    | .ok (q, r') => ∃ p : Option Precision, toPyPrec p = q ∧
+        parsePrecision i rest = .ok (p, i + (rest.length - r'.length), r') ∧ r' <:+ rest
+    | .err e => e = .tooBig ∧ ∃ j, parsePrecision i rest = .err .intTooBig j := by
   cases rest with
-  | nil => exact ⟨none, [], by simp [pyPrecision, toPyPrec], by simp [parsePrecision], List.suffix_refl _⟩
+  | nil => simp only [pyPrecision]; exact ⟨none, rfl, rfl, List.suffix_refl _⟩
   | cons c cs =>
     by_cases h46 : c = 46
     · subst h46
-      have hs' := smallNumerals_suffix _ _ (List.suffix_cons 46 cs) hs
-      obtain ⟨r, h1, h2, h3⟩ := parseQuantity_eq (i + 1) cs i32Max (Nat.le_refl _) hs'
-      obtain ⟨q, r'⟩ := r
-      have hlen := h3.length_le
-      simp only at h3 hlen
-      cases q with
-      | none =>
-        refine ⟨some .dot, r', ?_, ?_, List.IsSuffix.trans h3 (List.suffix_cons _ _)⟩
-        · simp [pyPrecision, h1, toPyPrec]
-        · simp [parsePrecision, h2, decorate]; omega
-      | some q =>
-        refine ⟨some (.quantity q), r', ?_, ?_, List.IsSuffix.trans h3 (List.suffix_cons _ _)⟩
-        · simp [pyPrecision, h1, toPyPrec]
-        · simp [parsePrecision, h2, decorate]; omega
-    · refine ⟨none, c :: cs, ?_, ?_, List.suffix_refl _⟩
-      · unfold pyPrecision; split
+      simp only [pyPrecision, parsePrecision]
+      rcases parseQuantity_cases (i + 1) cs with ⟨cs', rfl, h⟩ | ⟨h42, he, h⟩ | ⟨h42, he, h⟩
+      · simp only [pyQuantity, h]
+        exact ⟨some (.quantity .star), rfl, by simp; omega, List.suffix_cons_iff.mpr (Or.inr (List.suffix_cons _ _))⟩
+      · have hq : pyQuantity i32Max cs = .ok (none, cs) := by
+          cases cs with
+          | nil => rfl
+          | cons d ds => rw [pyQuantity_cons _ _ _ (by simpa using h42)]; simp only [he, if_true]
+        simp only [hq, h]
+        exact ⟨some .dot, rfl, by simp, List.suffix_cons _ _⟩
+      · cases cs with
+        | nil => simp at he
+        | cons d ds =>
+          rw [pyQuantity_cons _ _ _ (by simpa using h42)]
+          simp only [he, Bool.false_eq_true, if_false]
+          have hsuf : (d :: ds).dropWhile isDigit <:+ 46 :: d :: ds :=
+            List.IsSuffix.trans (List.dropWhile_suffix _) (List.suffix_cons _ _)
+          have hl := (List.dropWhile_suffix isDigit (l := d :: ds)).length_le
+          by_cases hv : digitsValue ((d :: ds).takeWhile isDigit) ≤ isizeMax
+          · rw [if_pos hv] at h
+            rw [h]
+            by_cases hv2 : digitsValue ((d :: ds).takeWhile isDigit) > i32Max
+            · simp only [hv2, if_true]
+              exact ⟨trivial, i, rfl⟩
+            · simp only [hv2, if_false]
+              refine ⟨some (.quantity (.amount _)), rfl, ?_, hsuf⟩
+              simp only [List.length_cons] at hl ⊢
+              have e : i + 1 + (ds.length + 1 - ((d :: ds).dropWhile isDigit).length) =
+                  i + (ds.length + 1 + 1 - ((d :: ds).dropWhile isDigit).length) := by omega
+              rw [e]
+          · rw [if_neg hv] at h
+            obtain ⟨j, hj⟩ := h
+            have : digitsValue ((d :: ds).takeWhile isDigit) > i32Max := by unfold i32Max; unfold isizeMax at hv; omega
+            simp only [this, if_true, hj]
+            exact ⟨trivial, j, rfl⟩
+    · have h1 : pyPrecision (c :: cs) = .ok (none, c :: cs) := by
+        unfold pyPrecision; split
         · simp_all
-        · simp [toPyPrec]
-      · unfold parsePrecision; split
+        · rfl
+      have h2 : parsePrecision i (c :: cs) = .ok (none, i, c :: cs) := by
+        unfold parsePrecision; split
         · simp_all
-        · simp
+        · rfl
+      rw [h1]
+      exact ⟨none, rfl, by rw [h2]; simp, List.suffix_refl _⟩
 
 theorem consumeLength_eq (i : Nat) (rest : List Nat) :
     consumeLength i rest = (i + (rest.length - (pyLength rest).length), pyLength rest) ∧
@@ -352,7 +402,7 @@ theorem parseFormatType_eq (i n : Nat) (rest : List Nat) (hn : i + rest.length =
 
 /-- one conversion specifier: the model is the reference with indices -/
 theorem parseSpec_eq (i n : Nat) (rest : List Nat) (hn : i + rest.length = n)
-    (hlen : rest.length < i32Max) (hs : smallNumerals rest = true) :
+    (hlen : rest.length < i32Max) :
     match pyConv .bytes n rest with
     | .ok (pc, r') => ∃ spec, parseSpec i rest = .ok (spec, i + (rest.length - r'.length), r') ∧
         toPyConv spec = pc ∧ typeOfChar spec.fchar = some spec.ftype ∧ r' <:+ rest ∧
@@ -369,7 +419,6 @@ theorem parseSpec_eq (i n : Nat) (rest : List Nat) (hn : i + rest.length = n)
     obtain ⟨key, r1⟩ := r1
     have s1 : r1 <:+ rest := pyKey_suffix rest _ hk
     have l1 := s1.length_le
-    have hs1 := smallNumerals_suffix _ _ s1 hs
     simp only [decorate]
     rw [parseFlags_eq]
     simp only [mergeFlags_empty]
@@ -377,20 +426,38 @@ theorem parseSpec_eq (i n : Nat) (rest : List Nat) (hn : i + rest.length = n)
     have l2 := s2.length_le
     have e2 : (r1.takeWhile isFlag).length + (r1.dropWhile isFlag).length = r1.length := by
       rw [← List.length_append, List.takeWhile_append_dropWhile]
-    have hs2 := smallNumerals_suffix _ _ s2 hs1
-    obtain ⟨⟨width, r3⟩, hq1, hq2, s3⟩ :=
-      parseQuantity_eq (i + (rest.length - r1.length) + (r1.takeWhile isFlag).length)
-        (r1.dropWhile isFlag) isizeMax (by decide) hs2
+    have hq := parseQuantity_eq (i + (rest.length - r1.length) + (r1.takeWhile isFlag).length)
+        (r1.dropWhile isFlag)
+    cases hqq : pyQuantity isizeMax (r1.dropWhile isFlag) with
+    | err e =>
+      rw [hqq] at hq
+      obtain ⟨he, j, hj⟩ := hq
+      subst he
+      exact ⟨.intTooBig, j, by rw [hj], rfl⟩
+    | ok wr =>
+    rw [hqq] at hq
+    obtain ⟨width, r3⟩ := wr
+    obtain ⟨hq2, s3⟩ := hq
     simp only at s3
     have l3 := s3.length_le
-    have hs3 := smallNumerals_suffix _ _ s3 hs2
-    rw [hq1, hq2]
+    rw [hq2]
     simp only [decorate]
-    obtain ⟨prec, r4, hp1, hp2, s4⟩ := parsePrecision_eq
+    have hp := parsePrecision_eq
       (i + (rest.length - r1.length) + (r1.takeWhile isFlag).length +
-        ((r1.dropWhile isFlag).length - r3.length)) r3 hs3
+        ((r1.dropWhile isFlag).length - r3.length)) r3
+    cases hpp : pyPrecision r3 with
+    | err e =>
+      rw [hpp] at hp
+      obtain ⟨he, j, hj⟩ := hp
+      subst he
+      exact ⟨.intTooBig, j, by rw [hj], rfl⟩
+    | ok pr =>
+    rw [hpp] at hp
+    obtain ⟨pq, r4⟩ := pr
+    obtain ⟨prec, hp1, hp2, s4⟩ := hp
+    subst hp1
     have l4 := s4.length_le
-    rw [hp1, hp2]
+    rw [hp2]
     simp only
     obtain ⟨hc1, s5⟩ := consumeLength_eq
       (i + (rest.length - r1.length) + (r1.takeWhile isFlag).length +
@@ -463,18 +530,50 @@ theorem prependLit_nil (l : List Nat) :
     prependLit l [] = if l.isEmpty then [] else [.lit l] := by
   cases l <;> simp [prependLit]
 
-theorem parseLoop_eq : ∀ (fuel : Nat) (rest : List Nat) (i : Nat) (lit : List Nat) (pi n fuel' : Nat),
+/-- text mode differs from bytes mode in one point: the conversion `b` is unsupported (reported at the
+    index of that character) -/
+theorem pyConv_text_eq (n : Nat) (cs : List Nat) :
+    pyConv .text n cs =
+      match pyConv .bytes n cs with
+      | .ok (pc, r') => if pc.type = 98 then .err (.unsupported 98 (n - (r'.length + 1))) else .ok (pc, r')
+      | .err e => .err e := by
+  unfold pyConv
+  cases pyKey cs with
+  | err e => rfl
+  | ok r1 =>
+    obtain ⟨key, r1⟩ := r1
+    dsimp only
+    cases pyQuantity isizeMax (r1.dropWhile isFlag) with
+    | err e => rfl
+    | ok r2 =>
+      obtain ⟨w, r2⟩ := r2
+      dsimp only
+      cases pyPrecision r2 with
+      | err e => rfl
+      | ok r3 =>
+        obtain ⟨p, r3⟩ := r3
+        dsimp only
+        cases pyLength r3 with
+        | nil => rfl
+        | cons c r =>
+          by_cases h : c = 98
+          · subst h; simp [pyType, validType]
+          · have h1 : (c == 98) = false := by simp [h]
+            have hv : validType .text c = validType .bytes c := by simp [validType, h1]
+            simp only [pyType, hv]
+            cases validType .bytes c <;> simp [h]
+
+theorem parseLoop_eq (m : Mode) : ∀ (fuel : Nat) (rest : List Nat) (i : Nat) (lit : List Nat) (pi n fuel' : Nat),
     rest.length < fuel → rest.length ≤ fuel' → i + rest.length = n → n < i32Max →
-    smallNumerals rest = true →
-    match pyItems .bytes n fuel' rest with
-    | .ok items => ∃ ps, parseLoop fuel i rest lit pi = .ok ps ∧
+    match pyItems m n fuel' rest with
+    | .ok items => ∃ ps, parseLoop (m == .text) fuel i rest lit pi = .ok ps ∧
         ps.map (fun p => toPiece p.2) = prependLit lit (group items)
-    | .err e => ∃ k j, parseLoop fuel i rest lit pi = .err k j ∧ toPyErr k j = e := by
+    | .err e => ∃ k j, parseLoop (m == .text) fuel i rest lit pi = .err k j ∧ toPyErr k j = e := by
   intro fuel
   induction fuel with
   | zero => intro rest i lit pi n fuel' h; omega
   | succ fuel ih =>
-    intro rest i lit pi n fuel' hf hf' hn hmax hs
+    intro rest i lit pi n fuel' hf hf' hn hmax
     cases rest with
     | nil =>
       simp only [pyItems, parseLoop]
@@ -484,7 +583,6 @@ theorem parseLoop_eq : ∀ (fuel : Nat) (rest : List Nat) (i : Nat) (lit : List 
     | cons c rest =>
       simp only [List.length_cons] at hf hf' hn
       obtain ⟨f', rfl⟩ : ∃ f', fuel' = f' + 1 := ⟨fuel' - 1, by omega⟩
-      have hs' := smallNumerals_suffix _ _ (List.suffix_cons c rest) hs
       by_cases hc : c = 37
       · subst hc
         cases rest with
@@ -493,10 +591,9 @@ theorem parseLoop_eq : ∀ (fuel : Nat) (rest : List Nat) (i : Nat) (lit : List 
           simp only [List.length_cons] at hf hf' hn
           by_cases hd : d = 37
           · subst hd
-            have hs'' := smallNumerals_suffix _ _ (List.suffix_cons 37 rest') hs'
-            have := ih rest' (i + 2) (lit ++ [37]) pi n f' (by omega) (by omega) (by omega) hmax hs''
+            have := ih rest' (i + 2) (lit ++ [37]) pi n f' (by omega) (by omega) (by omega) hmax
             simp only [pyItems, parseLoop, if_true]
-            cases hp : pyItems .bytes n f' rest' with
+            cases hp : pyItems m n f' rest' with
             | err e =>
               rw [hp] at this
               exact this
@@ -505,8 +602,26 @@ theorem parseLoop_eq : ∀ (fuel : Nat) (rest : List Nat) (i : Nat) (lit : List 
               obtain ⟨ps, h1, h2⟩ := this
               refine ⟨ps, h1, ?_⟩
               rw [h2, prependLit_snoc]
-          · have hsp := parseSpec_eq (i + 1) n (d :: rest') (by simp; omega) (by simp; omega) hs'
+          · have hsp := parseSpec_eq (i + 1) n (d :: rest') (by simp; omega) (by simp; omega)
             simp only [pyItems, parseLoop, if_true, hd, if_false]
+            -- the reference conversion in mode `m`, in terms of the bytes-mode one
+            have hmode : pyConv m n (d :: rest') =
+                match pyConv .bytes n (d :: rest') with
+                | .ok (pc, r') =>
+                  if (m == .text) = true ∧ pc.type = 98 then .err (.unsupported 98 (n - (r'.length + 1)))
+                  else .ok (pc, r')
+                | .err e => .err e := by
+              cases m with
+              | bytes =>
+                cases pyConv .bytes n (d :: rest') with
+                | err e => rfl
+                | ok pr => obtain ⟨pc, r'⟩ := pr; simp
+              | text =>
+                rw [pyConv_text_eq]
+                cases pyConv .bytes n (d :: rest') with
+                | err e => rfl
+                | ok pr => obtain ⟨pc, r'⟩ := pr; simp
+            rw [hmode]
             cases hpc : pyConv .bytes n (d :: rest') with
             | err e =>
               rw [hpc] at hsp
@@ -518,29 +633,38 @@ theorem parseLoop_eq : ∀ (fuel : Nat) (rest : List Nat) (i : Nat) (lit : List 
               obtain ⟨spec, h1, h2, _, h4, h5⟩ := hsp
               have l4 := h4.length_le
               simp only [List.length_cons] at h5 l4
-              have hs'' := smallNumerals_suffix _ _ h4 hs'
               rw [h1]
               simp only
-              have := ih r' (i + 1 + ((d :: rest').length - r'.length)) []
-                (if r'.isEmpty then pi else i + 1 + ((d :: rest').length - r'.length)) n f'
-                (by omega) (by omega) (by simp; omega) hmax hs''
-              cases hp : pyItems .bytes n f' r' with
-              | err e =>
-                rw [hp] at this
-                obtain ⟨k, j, g1, g2⟩ := this
-                exact ⟨k, j, by rw [g1], g2⟩
-              | ok items =>
-                rw [hp] at this
-                obtain ⟨ps, g1, g2⟩ := this
-                refine ⟨_, by rw [g1], ?_⟩
-                have e : toPiece (.spec spec) = .conv pc := by simp [toPiece, h2]
-                simp only [group, prependLit_conv, List.map_append, List.map_cons, e]
-                simp only [prependLit] at g2
-                rw [g2]
-                cases lit <;> simp [flushLit, toPiece]
-      · have := ih rest (i + 1) (lit ++ [c]) pi n f' (by omega) (by omega) (by omega) hmax hs'
+              have hty : pc.type = spec.fchar := by rw [← h2]; rfl
+              by_cases hb : (m == .text) = true ∧ spec.fchar = 98
+              · -- `%b` in a text template
+                rw [if_pos hb, if_pos (by rw [hty]; exact hb)]
+                refine ⟨.unsupported 98, _, rfl, ?_⟩
+                simp only [toPyErr, List.length_cons]
+                congr 1
+                omega
+              · rw [if_neg hb, if_neg (by rw [hty]; exact hb)]
+                simp only
+                have := ih r' (i + 1 + ((d :: rest').length - r'.length)) []
+                  (if r'.isEmpty then pi else i + 1 + ((d :: rest').length - r'.length)) n f'
+                  (by omega) (by omega) (by simp; omega) hmax
+                cases hp : pyItems m n f' r' with
+                | err e =>
+                  rw [hp] at this
+                  obtain ⟨k, j, g1, g2⟩ := this
+                  exact ⟨k, j, by rw [g1], g2⟩
+                | ok items =>
+                  rw [hp] at this
+                  obtain ⟨ps, g1, g2⟩ := this
+                  refine ⟨_, by rw [g1], ?_⟩
+                  have e : toPiece (.spec spec) = .conv pc := by simp [toPiece, h2]
+                  simp only [group, prependLit_conv, List.map_append, List.map_cons, e]
+                  simp only [prependLit] at g2
+                  rw [g2]
+                  cases lit <;> simp [flushLit, toPiece]
+      · have := ih rest (i + 1) (lit ++ [c]) pi n f' (by omega) (by omega) (by omega) hmax
         simp only [pyItems, parseLoop, hc, if_false]
-        cases hp : pyItems .bytes n f' rest with
+        cases hp : pyItems m n f' rest with
         | err e =>
           rw [hp] at this
           exact this
@@ -569,8 +693,8 @@ theorem parseSpec_wf (i : Nat) (rest : List Nat) (spec i' r')
   cases h
   exact parseFormatType_wf _ _ _ _ _ _ (by assumption)
 
-theorem parseLoop_wf : ∀ (fuel : Nat) (rest : List Nat) (i : Nat) (lit : List Nat) (pi : Nat) (ps),
-    parseLoop fuel i rest lit pi = .ok ps → ∀ p ∈ ps, wfPart p.2 := by
+theorem parseLoop_wf (text : Bool) : ∀ (fuel : Nat) (rest : List Nat) (i : Nat) (lit : List Nat) (pi : Nat) (ps),
+    parseLoop text fuel i rest lit pi = .ok ps → ∀ p ∈ ps, wfPart p.2 := by
   intro fuel
   induction fuel with
   | zero => intro rest i lit pi ps h; simp [parseLoop] at h
@@ -593,19 +717,21 @@ theorem parseLoop_wf : ∀ (fuel : Nat) (rest : List Nat) (i : Nat) (lit : List 
             · cases h
             · rename_i hsp
               split at h
-              · rename_i hl
-                cases h
-                intro p hp
-                simp only [List.mem_append, List.mem_cons] at hp
-                rcases hp with hp | hp | hp
-                · simp only [flushLit] at hp
-                  cases lit with
-                  | nil => simp at hp
-                  | cons a l => simp at hp; subst hp; simp [wfPart]
-                · subst hp; exact parseSpec_wf _ _ _ _ _ hsp
-                · exact ih _ _ _ _ _ hl p hp
               · cases h
-              · cases h
+              · split at h
+                · rename_i hl
+                  cases h
+                  intro p hp
+                  simp only [List.mem_append, List.mem_cons] at hp
+                  rcases hp with hp | hp | hp
+                  · simp only [flushLit] at hp
+                    cases lit with
+                    | nil => simp at hp
+                    | cons a l => simp at hp; subst hp; simp [wfPart]
+                  · subst hp; exact parseSpec_wf _ _ _ _ _ hsp
+                  · exact ih _ _ _ _ _ hl p hp
+                · cases h
+                · cases h
       · exact ih _ _ _ _ _ h
 
 /-! ### check_specifiers -/
